@@ -31,10 +31,6 @@ RULE = ("meshes: empty / one triangle / random up to 300 triangles / indices at 
 
 DTYPES = ["bool", "uint8", "uint16", "uint32", "uint64", "int8", "int16", "int32", "int64", "float32",
           "float64"]
-F_SHORT = "mesh-short-header"
-F_INDEX = "mesh-index-eq-count"
-F_NAME = "vtk-attr-name-whitespace"
-F_TITLE = "vtk-long-title"
 
 
 # ------------------------------------------------------------------ helpers
@@ -117,9 +113,10 @@ def js_parse_float(s):
 
 def vtk_parse_py(data):
     """The subset of legacy VTK ASCII accepted by Neuroglancer's parser
-    (datasource/vtk/parse.ts): header matched inside the first 256 bytes, then
-    the line-driven POLYDATA reader."""
-    m = VTK_HEADER.match(data[:256])
+    (datasource/vtk/parse.ts): four-line header, then the line-driven POLYDATA
+    reader.  The size of the window in which Neuroglancer looks for the header
+    is not modelled: a comment line of any length is accepted."""
+    m = VTK_HEADER.match(data)
     if m is None:
         raise VtkReject("header")
     if m.group(3) != b"ASCII" or m.group(4) != b"POLYDATA":
@@ -267,14 +264,6 @@ def run(R):
     R.rule = RULE
     rng = R.rng
     quick = R.tier == "quick"
-    known_ids = {f["id"] for f in R.findings}
-
-    def known_or_violation(fid, what, case, detail):
-        if fid in known_ids:
-            R.known(fid)
-        else:
-            R.violation(what, case, detail)
-
     # ============================================================ writer
     meshes = [("empty", 0, 0, None), ("one-vertex-no-tri", 1, 0, None), ("one-triangle", 3, 1, None)]
     for _ in range(120 if quick else 400):
@@ -314,7 +303,7 @@ def run(R):
         buf = io.BytesIO()
         impl = outcome_of(lambda: mesh.save_mesh_as_precomputed(buf, v, t))
         written = buf.getvalue()
-        m_out, m_partial, m_wf, m_wfl = rep
+        m_out, m_partial, m_wf = rep
         mod = model_outcome(m_out)
         case = {"kind": kind, "nv": int(v.shape[0]), "nt": int(t.shape[0]), "tri_dtype": dt,
                 "vertex_dtype": v.dtype.name}
@@ -413,7 +402,7 @@ def run(R):
     replies = R.model.batch([("mesh_read", b) for _k, b in streams])
     for (kind, b), rep in zip(streams, replies):
         impl = read_impl(b)
-        m_out, m_spec, m_guard, m_eq = rep
+        m_out, m_spec = rep
         mod = model_outcome(m_out)
         case = {"kind": kind, "bytes": b if len(b) <= 120 else b[:120], "len": len(b)}
         R.case(case, nontrivial=len(b) >= 4)
@@ -426,21 +415,15 @@ def run(R):
         if spec != m_spec_py:
             R.violation("extracted spec_parse disagrees with the Python restatement (harness self-check)",
                         case, {"spec": str(m_spec)[:100]})
-        in_short = len(b) < 4
-        in_eq = index_eq_count_py(b)
-        if (not in_short and not in_eq) != (m_guard == Atom("true")):
-            R.disagree("reader_guard classification", case, [in_short, in_eq], str(m_guard))
+        if len(b) < 4:
+            R.count("read:region:short-header")
+        if index_eq_count_py(b):
+            R.count("read:region:index-equals-count")
         good = (impl == ["ok", spec]) if spec is not None else (impl == ["FormatErr"])
         if not good:
-            detail = {"impl": impl if impl[0] != "ok" else "accepted", "format_says": "valid" if spec else "invalid"}
-            if in_short and impl == ["Crash", "StructError"]:
-                known_or_violation(F_SHORT, "short header: reader raises struct.error instead of the mesh error",
-                                   case, detail)
-            elif in_eq and impl[0] == "ok":
-                known_or_violation(F_INDEX, "triangle index equal to the vertex count accepted", case, detail)
-            else:
-                R.violation("reader neither returns the formatted mesh nor raises InvalidMeshDataError",
-                            case, detail)
+            R.violation("reader neither returns the formatted mesh nor raises InvalidMeshDataError", case,
+                        {"impl": impl if impl[0] != "ok" else "accepted",
+                         "format_says": "valid" if spec else "invalid"})
 
     # ============================================================ affine transform
     def closed_mesh():
@@ -758,22 +741,25 @@ def run(R):
         R.count(f"vtk:{impl[0] if impl[0] != 'Crash' else impl[1]}:attrs={len(attrs)}")
         if impl[0] != mod[0] or (impl[0] != "ok" and impl != mod):
             R.disagree("save_mesh_as_neuroglancer_vtk outcome vs vtk_write", case, impl, mod[:2])
-            continue
         if impl[0] != "ok":
+            # inputs the writer must refuse: anything else than its AssertionError is a failure
+            if impl != ["Crash", "AssertionError"]:
+                R.violation("VTK writer failed with an unexpected error", case, {"impl": impl})
             continue
+        model_ok = mod[0] == "ok"
         if not text.endswith("\n"):
             R.violation("VTK text does not end with a newline", case, {})
         lines = text.split("\n")[:-1]
-        mtext = "".join(render_text(ml) + "\n" for ml in mod[1])
-        if mtext != text:
-            R.disagree("VTK text vs model lines", case, lines[:8], mtext.split("\n")[:8])
+        if model_ok:
+            mtext = "".join(render_text(ml) + "\n" for ml in mod[1])
+            if mtext != text:
+                R.disagree("VTK text vs model lines", case, lines[:8], mtext.split("\n")[:8])
         # oracle: the grammar Neuroglancer accepts, on the text really written
         guard = m_guard == Atom("true")
-        hdr_len = sum(len(x.encode()) + 1 for x in lines[:4])
-        bad_names = [nm for nm, *_ in attrs if nm == "" or re.search(r"\s", nm)]
         neg = bool(t.size and t.min() < 0)
-        py_guard = hdr_len <= 256 and not bad_names and not neg and "\r" not in title
-        if py_guard != guard:
+        zero_k = any(k < 1 for _nm, _v, _nd, k, _n in attrs)
+        py_guard = not neg and not zero_k and "\r" not in title
+        if model_ok and py_guard != guard:
             R.disagree("vtk_guard classification", case, py_guard, guard)
         try:
             got = vtk_parse_py(text.encode())
@@ -792,18 +778,12 @@ def run(R):
             verdict = f"rejected by the grammar: {exc}"
         gram_ok = str(m_gram[0]) == "some" and m_gram[1] == m_expect
         line_break_in_name = any(ch in nm for nm, *_ in attrs for ch in "\n\r\v\f")
-        if (verdict is None) != gram_ok and not line_break_in_name:
+        if model_ok and (verdict is None) != gram_ok and not line_break_in_name:
             R.disagree("extracted vtk_grammar verdict vs the regular-expression reader", case, verdict,
                        str(m_gram)[:80])
         if verdict is not None:
             if neg:
                 R.count("vtk:negative-index-input (malformed input, not judged)")
-            elif bad_names:
-                known_or_violation(F_NAME, "VTK export with an attribute name containing white space / empty",
-                                   case, {"verdict": verdict})
-            elif hdr_len > 256:
-                known_or_violation(F_TITLE, "VTK header longer than the 256 bytes Neuroglancer inspects",
-                                   case, {"verdict": verdict, "header_bytes": hdr_len})
             else:
                 R.violation("VTK export not accepted by the Neuroglancer subset grammar", case,
                             {"verdict": verdict})
@@ -941,8 +921,7 @@ def replay(R, payload):
         impl = read_impl(b)
         spec = spec_parse_py(b)
         good = (impl == ["ok", spec]) if spec is not None else (impl == ["FormatErr"])
-        known = (len(b) < 4 and impl == ["Crash", "StructError"]) or (index_eq_count_py(b) and impl[0] == "ok")
-        return not good and not known
+        return not good
     R.tier = payload.get("tier", R.tier)
     R.rng = random.Random(f"{R.pid}:{payload.get('seed', 0)}")
     run(R)
